@@ -24,7 +24,8 @@ BASE = {
     "C18": {
         "max_steps": 14,
         # (a registered callback is a Python closure; pickling user functions is outside C18's feature list)
-        "weights": {"save": 5, "load": 5, "callback": 0},
+        "weights": {"save": 5, "load": 5, "callback": 0, "set_value": 5},
+        "np_min": 2,
         "p_real": 0.15,
     },
 }
